@@ -171,6 +171,14 @@ inductive ReachableKeys (desc : Bool) : List SKey → Prop
       stackDecisionG desc cs = some true →
       ReachableKeys desc ((cs.map SegCol.liveKeys).flatten)
 
+/-- mirrors: columnar `compute_merged_term_ord_mapping` as used by
+`merger.rs::StrBytesSortFieldAccessor::remapped_term_ord` (str / bytes sort fields): the merged
+dictionary is the sorted, duplicate-free union of the segments' dictionaries; a term's merged
+ordinal is its position in it. Segment-local ordinals are positions in the segment's own sorted
+dictionary, so `remapped_term_ord(doc) = mergedOrd dicts (dict_i[local_ord])`. -/
+def mergedDict (dicts : List (List Key)) : List Key := keyUnion dicts
+def mergedOrd (dicts : List (List Key)) (k : Key) : Nat := (mergedDict dicts).idxOf k
+
 /-- `sort_readers_by_min_sort_field`: stable sort of the readers by `min_value` -/
 def sortReaders {β} (desc : Bool) (rs : List (Stats × β)) : List (Stats × β) :=
   rs.mergeSort fun a b => if desc then b.1.1 ≤ a.1.1 else a.1.1 ≤ b.1.1
